@@ -65,6 +65,22 @@ CHECKS["C04"] = dict(
     design="DESIGN.md section 3 C04",
 )
 
+CHECKS["C06"] = dict(
+    category="model_checking",
+    technique="symbolic execution of DecodeInteger<T> / WriteIntegerToTextStream<Stream,T> from clang -O2 LLVM IR (ll2smt) with z3 bit-vector queries: all texts of a stated shape, all values of each type",
+    text="Integer text codec clause only (the last sentence of the property).  Bounded: DecodeInteger is executed on every text "
+         "of up to 6 (quick) / 7 (thorough) arbitrary bytes and on boundary families (a head of the type's limit in base 2/10/16 "
+         "followed by free characters) for all eight integer types: accepted only if digits/underscores with at least one digit, "
+         "in range, and with exactly the mathematical value (no wrap); documented formats in range are accepted; no access outside "
+         "the string or *result.  decode(encode(x)) == x and 'output is a documented number format' for every x of every type in "
+         "base 2 and 16 (with/without grouping) and in base 10 for 8/16-bit types.",
+    note="NOT claimed: the structure level of C06 (WriteToString/UpdateFromText of whole views, Skip/Emit, emission order, "
+         "comments/multiline options) -- std::ostringstream/std::string growth/virtual dispatch are not encodable by ll2smt. "
+         "Outside the bounds: decimal texts with more than 4 (quick) / 6 (thorough) free digits after a concrete head, base-10 "
+         "round trip of 32/64-bit values (10^k chains do not bit-blast in time in z3 or cvc5).  Assumes libstdc++ std::string layout.",
+    design="DESIGN.md section 3 C06 and Build status",
+)
+
 CHECKS["C09"] = dict(
     category="model_checking",
     technique="bisimulation of the two LR table sets decided by z3's Datalog fixed-point engine over the product of the pushdown automata",
@@ -160,11 +176,6 @@ CHECKS["C08"] = dict(
 )
 
 NOT_APPLICABLE = {
-    "C06": "solver-based checking does not reach it: WriteToString/UpdateFromText run through std::ostringstream, "
-           "std::string growth and virtual stream dispatch, which do not survive into LLVM IR the translator (vf/ll2smt.py) "
-           "can execute, and modelling libstdc++ is out of proportion; the separable integer-codec clause was probed "
-           "(DecodeInteger/WriteIntegerToTextStream lower to IR, but the reachability query over the std::string paths did "
-           "not return within 20 minutes for an 8-character symbolic text), so nothing is claimed (DESIGN.md section 3 C06, section 4)",
     "C07": "whether an emitted header is well-formed C++ under each -std is decided by a C++ front end; there is no symbolic "
            "input and no arithmetic for a solver to range over -- the check would be running the compiler on samples, a different "
            "technique (DESIGN.md section 4)",
@@ -223,7 +234,7 @@ def main():
         "engines": [
             {"name": "pysym", "path": "vf/pysym.py", "serves_properties": ["C05", "C13", "C14", "C15", "C08", "C10"],
              "kind_free_text": "dynamic symbolic executor for /repo's Python functions (z3 Int terms, eager forking, re-execution DFS)"},
-            {"name": "ll2smt", "path": "vf/ll2smt.py", "serves_properties": ["C01", "C02", "C03", "C04", "C19", "C20"],
+            {"name": "ll2smt", "path": "vf/ll2smt.py", "serves_properties": ["C01", "C02", "C03", "C04", "C06", "C19", "C20"],
              "kind_free_text": "clang -O2 LLVM IR of runtime/generated headers -> z3 bit-vector/array terms, path forking"},
         ],
         "checks": checks,
